@@ -457,9 +457,13 @@ Qed.
    Generated.C10Steps.c10_steps: per function the calls that involve the build context, in
    evaluation order, each under the conditions it sits under.  Model/BuildSteps.v runs them
    ([build_trace]: the sequence of primitive calls a configuration executes); a configuration
-   is a valuation [cond] of the condition texts; the single-layer build is [cond] with the
-   branch condition of BuildLayers set ([single_when]), the layered build has it unset and the
-   three refusals of buildLayers (strategy, base image, negative budget) unset ([multi_when]).
+   is a valuation [cond] of the condition texts (one spelling per fact: `X != Y` is read as
+   (`X == Y`, false); what follows an `if` that always returns carries the negated condition).
+   The configurations compared are those buildLayers accepts (known strategy, no base image,
+   budget >= 0: the conditions of its first call that is not a refusal); the layered build is
+   [cond] under the conditions of BuildLayers' call of buildLayers ([multi_when]), the
+   single-layer build of the same configuration under those of its call of BuildLayer
+   ([single_when]) — whichever way the branch is written in the source.
 
    c10_build_order (FULL, every configuration): the two builds fail together before
    serialising anything, or both serialise — writeTar resp. splitLayers — after the SAME
